@@ -6,6 +6,7 @@ import FgaVerif.Codec
 import FgaVerif.Model.Printer
 import FgaVerif.Model.Clean
 import FgaVerif.Model.Listener
+import FgaVerif.Model.Scoped
 import FgaVerif.Model.ModFile
 import FgaVerif.Model.PGraph
 import FgaVerif.Model.WGraph
@@ -43,6 +44,12 @@ def opModel2Dsl (m : Sexp) (src : Bool) : String :=
     | .ok s => s!"(ok {Sexp.quote s})"
     | .error e => printErrS e
 
+/-- the hypothesis of Props/C08.walk_no_panic, evaluated on a real parse tree -/
+def opScoped (tree : Sexp) : String :=
+  match Codec.decTree tree with
+  | some t => if Listener.wellScoped {} t then "(scoped true)" else "(scoped false)"
+  | none => "bad-op"
+
 def opDsl2Model (text cleaned : String) (tree errs : Sexp) : String :=
   let lc := String.ofList (Clean.clean text.toList)
   if lc != cleaned then s!"(clean-mismatch {Sexp.quote lc})"
@@ -68,6 +75,15 @@ def opMerge (schema : String) (files : List Sexp) : String :=
     match rs.mapM (fun r => r) with
     | .error e => e
     | .ok fs => toString (Codec.encMergeOutcome (Merge.merge fs schema))
+
+/-- the hypothesis `FilesWF` of the merge theorems (Props/C07), evaluated on the parsed files -/
+def opMergeWF (files : List Sexp) : String :=
+  match files.mapM decFile with
+  | none => "bad-op"
+  | some rs =>
+    match rs.mapM (fun r => r) with
+    | .error e => e
+    | .ok fs => if Merge.filesWFb fs then "(wf true)" else "(wf false)"
 
 def hexOf (bs : List UInt8) : String :=
   String.ofList (bs.flatMap fun x =>
@@ -186,7 +202,9 @@ def opWSpec (m : Sexp) (grouped : Bool) : String :=
     | .ok _ =>
       let g := Spec.Weights.sgraph grouped mdl
       let rs := Spec.Weights.rejects g
-      if !rs.isEmpty then
+      -- hypotheses of Props/C04: the iteration reached a fixed point and node names are distinct
+      if !(Spec.Weights.isFixpoint g (Spec.Weights.weights g) && decide ((g.map (·.name)).Nodup)) then "(unconverged)"
+      else if !rs.isEmpty then
         let kinds := (rs.map fun r => match r with
           | .rewriteCycle _ => "rewrite-cycle" | .operatorOnCycle _ => "operator-on-cycle" | .noTerminal _ => "no-terminal").eraseDups
         s!"(reject {" ".intercalate kinds})"
@@ -218,7 +236,9 @@ def step (line : String) : String :=
   | some (.list [.atom "model2dsl", m, .atom "true"]) => opModel2Dsl m true
   | some (.list [.atom "model2dsl", m, .atom "false"]) => opModel2Dsl m false
   | some (.list [.atom "dsl2model", .str text, .str cleaned, tree, errs]) => opDsl2Model text cleaned tree errs
+  | some (.list [.atom "scoped", tree]) => opScoped tree
   | some (.list [.atom "merge", .str schema, .list files]) => opMerge schema files
+  | some (.list [.atom "merge-wf", .list files]) => opMergeWF files
   | some (.list [.atom "pgraph", m]) => opPGraph m 0
   | some (.list [.atom "pgraph-rev", m]) => opPGraph m 1
   | some (.list [.atom "pgraph-rev2", m]) => opPGraph m 2
